@@ -24,35 +24,31 @@ Qed.
 
 (* ---------- "quiet" segments: configuration and underlying flag untouched, nobody notified ---------- *)
 Definition ov (s : state) : Prop := l_forced_closed (cfg s) = true \/ l_force_open (cfg s) = true.
+Definition NC (o : list obs) : Prop := any_circ_ev o = [].
 Definition quiet (s : state) (r : state * list obs) : Prop :=
-  cfg (fst r) = cfg s /\ flag (fst r) = flag s /\ any_circ_ev (snd r) = [].
+  cfg (fst r) = cfg s /\ flag (fst r) = flag s /\ NC (snd r).
 
-Lemma nocirc_app a b : any_circ_ev (a ++ b) = any_circ_ev a ++ any_circ_ev b.
-Proof. apply filter_app. Qed.
-Lemma nocirc_runmap k t d l : any_circ_ev (map (fun w => ORunEv w k t d) l) = [].
-Proof. induction l as [|x l IH]; cbn; auto. Qed.
-Lemma nocirc_fb st k t d : any_circ_ev (emit_fb st k t d) = [].
-Proof. unfold emit_fb. induction (seq 0 (s_nfb st)) as [|x l IH]; cbn; auto. Qed.
-Lemma nocirc_timers l : any_circ_ev (map OTimer l) = [].
-Proof. induction l as [|x l IH]; cbn; auto. Qed.
+Definition circ_free (o : obs) : bool := match o with OCircEv _ _ _ => false | _ => true end.
+Lemma NC_nil : NC []. Proof. reflexivity. Qed.
+Lemma NC_app a b : NC a -> NC b -> NC (a ++ b).
+Proof. unfold NC, any_circ_ev. intros A B. rewrite filter_app, A, B. reflexivity. Qed.
+Lemma NC_cons x l : circ_free x = true -> NC l -> NC (x :: l).
+Proof. unfold NC. intros A B. destruct x; cbn in *; try exact B; discriminate. Qed.
+Lemma NC_runmap k t d l : NC (map (fun w => ORunEv w k t d) l).
+Proof. induction l as [|x l IH]; [apply NC_nil | apply NC_cons; [reflexivity | exact IH]]. Qed.
+Lemma NC_fb st k t d : NC (emit_fb st k t d).
+Proof. unfold emit_fb. induction (seq 0 (s_nfb st)) as [|x l IH]; [apply NC_nil | apply NC_cons; [reflexivity | exact IH]]. Qed.
+Lemma NC_timers l : NC (map OTimer l).
+Proof. induction l as [|x l IH]; [apply NC_nil | apply NC_cons; [reflexivity | exact IH]]. Qed.
 
-Lemma quiet_refl s o : any_circ_ev o = [] -> quiet s (s, o).
-Proof. intros H. unfold quiet. cbn. auto. Qed.
+Ltac nc := repeat first [ assumption | apply NC_nil | apply NC_runmap | apply NC_fb | apply NC_timers
+                        | apply NC_cons; [reflexivity|] | apply NC_app ].
 
-(* sequencing: a quiet segment followed by a quiet segment, with any quiet prefix *)
-Lemma quiet_seq s r1 r2 pre :
-  any_circ_ev pre = [] -> quiet s r1 -> quiet (fst r1) r2 ->
-  quiet s (fst r2, pre ++ snd r1 ++ snd r2).
-Proof.
-  unfold quiet. intros Hp (A1 & A2 & A3) (B1 & B2 & B3). cbn [fst snd].
-  rewrite !nocirc_app, Hp, A3, B3. repeat split; congruence.
-Qed.
+Lemma quiet_refl s o : NC o -> quiet s (s, o).
+Proof. intros H. unfold quiet. cbn [fst snd]. auto. Qed.
 
 Lemma emit_run_quiet st k t d s : quiet s (emit_run st k t d s).
-Proof. unfold quiet, emit_run. cbn. rewrite nocirc_runmap. auto. Qed.
-
-Lemma ov_cfg s s' : cfg s' = cfg s -> ov s -> ov s'.
-Proof. unfold ov. intros E H. rewrite E. exact H. Qed.
+Proof. unfold quiet, emit_run. cbn [fst snd]. repeat split. nc. Qed.
 
 Lemma open_circuit_ov st now s : ov s -> open_circuit st now s = (s, []).
 Proof.
@@ -81,13 +77,11 @@ Qed.
 Lemma fallback_stage_quiet st cs err ran derived s : quiet s (fallback_stage st cs err ran derived s).
 Proof.
   unfold quiet, fallback_stage.
-  destruct (negb (has_fb_eff (cs_call cs)) || l_fb_disabled (cfg s)); [cbn; auto|].
-  destruct ((0 <=? l_fb_max (cfg s)) && (l_fb_max (cfg s) <? fbs s + 1)); cbn [fst snd].
-  - rewrite nocirc_app, nocirc_fb. cbn. auto.
-  - cbn. auto.
+  destruct (negb (has_fb_eff (cs_call cs)) || l_fb_disabled (cfg s)); [cbn [fst snd]; repeat split; nc|].
+  destruct ((0 <=? l_fb_max (cfg s)) && (l_fb_max (cfg s) <? fbs s + 1)); cbn [fst snd]; repeat split; nc.
 Qed.
 
-(* `let (a, b) := r in (a, pre ++ b)` is a pair of projections *)
+(* `let (a, b) := r in f a b` is f on the projections *)
 Lemma let_pair {A B C} (r : A * B) (f : A -> B -> C) : (let (a, b) := r in f a b) = f (fst r) (snd r).
 Proof. destruct r; reflexivity. Qed.
 
@@ -95,32 +89,139 @@ Proof. destruct r; reflexivity. Qed.
 Lemma begin_call_quiet st id c s : quiet s (begin_call st id c s).
 Proof.
   unfold begin_call.
-  destruct (s_mode st); try (apply quiet_refl; reflexivity).
-  - destruct (l_disabled (cfg s)); [unfold quiet; cbn; auto|].
-    destruct (negb (c_has_run c)); [apply quiet_refl; reflexivity|].
-    set (cs0 := {| cs_id := id; cs_call := c; cs_phase := PPass; cs_done := c_done c |}).
-    (* allowNewRun: abstract its three results, keeping what we need of them *)
-    match goal with |- quiet s (match ?A with _ => _ end) =>
-      assert (Q1 : quiet s (fst (fst A), snd A)); [ | revert Q1; generalize A; intros [[s1 admitted] o1] Q1 ]
-    end.
-    { destruct (negb (is_open s)); [apply quiet_refl; reflexivity|].
-      destruct (l_force_open (cfg s)); [apply quiet_refl; reflexivity|].
-      destruct (closer_allow (clock s) (c_allow c) (cls s)) as [[cl1 b] timers].
-      unfold quiet. cbn. rewrite nocirc_timers. auto. }
-    destruct Q1 as (C1 & F1 & N1). cbn [fst snd] in C1, F1, N1.
-    destruct (negb admitted).
+  destruct (s_mode st); try (unfold quiet; cbn [fst snd]; repeat split; nc; fail).
+  destruct (l_disabled (cfg s)); [unfold quiet; cbn [fst snd]; repeat split; nc|].
+  destruct (negb (c_has_run c)); [apply quiet_refl; nc|].
+  set (cs0 := {| cs_id := id; cs_call := c; cs_phase := PPass; cs_done := c_done c |}).
+  (* allowNewRun: abstract its three results, keeping what we need of them *)
+  match goal with |- quiet s (match ?A with _ => _ end) =>
+    assert (Q1 : quiet s (fst (fst A), snd A)); [ | revert Q1; generalize A; intros [[s1 admitted] o1] Q1 ]
+  end.
+  { destruct (negb (is_open s)); [apply quiet_refl; nc|].
+    destruct (l_force_open (cfg s)); [apply quiet_refl; nc|].
+    destruct (closer_allow (clock s) (c_allow c) (cls s)) as [[cl1 b] timers].
+    unfold quiet. cbn [fst snd]. repeat split. nc. }
+  destruct Q1 as (C1 & F1 & N1). cbn [fst snd] in C1, F1, N1.
+  destruct (negb admitted).
+  - rewrite !let_pair.
+    pose proof (emit_run_quiet st KShort (clock s) None s1) as (C2 & F2 & N2).
+    pose proof (fallback_stage_quiet st cs0 VCircuitOpen false false (fst (emit_run st KShort (clock s) None s1))) as (C3 & F3 & N3).
+    unfold quiet. cbn [fst snd]. repeat split; [congruence | congruence | nc].
+  - destruct (opener_prevent (c_prevent c) (opn s1)).
     + rewrite !let_pair.
-      pose proof (emit_run_quiet st KShort (clock s) None s1) as (C2 & F2 & N2).
-      pose proof (fallback_stage_quiet st cs0 VCircuitOpen false false (fst (emit_run st KShort (clock s) None s1))) as (C3 & F3 & N3).
-      unfold quiet. cbn [fst snd]. rewrite !nocirc_app, N1, N2, N3. repeat split; congruence.
-    + destruct (opener_prevent (c_prevent c) (opn s1)).
+      pose proof (fallback_stage_quiet st cs0 VCircuitOpen false false s1) as (C3 & F3 & N3).
+      unfold quiet. cbn [fst snd]. repeat split; [congruence | congruence | nc].
+    + cbv zeta. destruct ((0 <=? l_max (cfg s1)) && (l_max (cfg s1) <? cmds s1 + 1)).
       * rewrite !let_pair.
-        pose proof (fallback_stage_quiet st cs0 VCircuitOpen false false s1) as (C3 & F3 & N3).
-        unfold quiet. cbn [fst snd]. rewrite !nocirc_app, N1. cbn. rewrite N3. repeat split; congruence.
-      * cbv zeta. destruct ((0 <=? l_max (cfg s1)) && (l_max (cfg s1) <? cmds s1 + 1)).
-        -- rewrite !let_pair.
-           pose proof (emit_run_quiet st KReject (clock s) None s1) as (C2 & F2 & N2).
-           pose proof (fallback_stage_quiet st cs0 VThrottled false false (fst (emit_run st KReject (clock s) None s1))) as (C3 & F3 & N3).
-           unfold quiet. cbn [fst snd]. rewrite !nocirc_app, N1. cbn. rewrite nocirc_app, N2, N3. repeat split; congruence.
-        -- unfold quiet. cbn [fst snd]. rewrite !nocirc_app, N1. cbn. auto.
+        pose proof (emit_run_quiet st KReject (clock s) None s1) as (C2 & F2 & N2).
+        pose proof (fallback_stage_quiet st cs0 VThrottled false false (fst (emit_run st KReject (clock s) None s1))) as (C3 & F3 & N3).
+        unfold quiet. cbn [fst snd]. repeat split; [congruence | congruence | nc].
+      * unfold quiet. cbn [fst snd]. repeat split; [exact C1 | exact F1 | nc].
+Qed.
+
+Ltac qtriv := unfold quiet; cbn [fst snd]; repeat split; nc.
+
+(* under an override the transitions are no-ops, so EndRun is quiet too *)
+Lemma end_run_quiet st id e s : ov s -> quiet s (end_run st id e s).
+Proof.
+  intros Hov. unfold end_run.
+  destruct (find_call id s) as [cs|]; [|qtriv].
+  destruct (cs_phase cs) as [start expected derived| |a b c]; [|qtriv|qtriv].
+  destruct (e_res e) as [|k|k|k|v]; [..|qtriv].
+  all: cbn [res_is_bad res_is_nil negb andb].
+  all: match goal with |- quiet ?s0 (match ?A with _ => _ end) =>
+         assert (Q1 : quiet s0 A); [ | revert Q1; generalize A; intros [s1 o1] (C1 & F1 & N1); cbn [fst snd] in C1, F1, N1 ]
+       end.
+  all: try (unfold emit_run; cbv beta iota;
+            repeat match goal with |- quiet _ (if ?b then _ else _) => destruct b end;
+            try rewrite attempt_to_open_ov by exact Hov;
+            try rewrite close_circuit_ov by exact Hov;
+            cbv beta iota; qtriv; fail).
+  all: cbv zeta; try (qtriv; congruence).
+  all: rewrite let_pair;
+       match goal with |- context [fallback_stage ?a ?b ?c ?d ?e ?f] =>
+         pose proof (fallback_stage_quiet a b c d e f) as (C3 & F3 & N3) end;
+       cbn [cfg flag set_cmds] in C3, F3;
+       unfold quiet; cbn [fst snd]; repeat split; [congruence | congruence | nc].
+Qed.
+
+Lemma end_fb_quiet st id f s : quiet s (end_fb st id f s).
+Proof.
+  unfold end_fb.
+  destruct (find_call id s) as [cs|]; [|qtriv].
+  destruct (cs_phase cs) as [start expected derived| |a b c]; [qtriv|qtriv|].
+  destruct f; qtriv.
+Qed.
+
+Lemma reading_circ_free st s : circ_free (reading st s) = true.
+Proof. unfold reading. destruct (s_mode st); reflexivity. Qed.
+
+Lemma step_core_quiet st s ev : ov s -> is_setconfig_b ev = false -> quiet s (step_core st s ev).
+Proof.
+  intros Hov Hev. destruct ev as [id c|id e|id f|id| | |l|d|k]; cbn [step_core].
+  - apply begin_call_quiet.
+  - apply end_run_quiet; exact Hov.
+  - apply end_fb_quiet.
+  - unfold cancel_call. destruct (find_call id s); qtriv.
+  - rewrite open_circuit_ov by exact Hov. qtriv.
+  - rewrite close_circuit_ov by exact Hov. qtriv.
+  - discriminate Hev.
+  - qtriv.
+  - qtriv.
+Qed.
+
+Lemma underlying_frozen (st : static) : forall s ev,
+  (l_forced_closed (cfg s) = true \/ l_force_open (cfg s) = true) -> is_setconfig_b ev = false ->
+  flag (fst (step st s ev)) = flag s /\ any_circ_ev (snd (step st s ev)) = [].
+Proof.
+  intros s ev Hov Hev.
+  destruct (step_core_quiet st s ev Hov Hev) as (C & F & N).
+  unfold step. destruct (step_core st s ev) as [s1 o]. cbn [fst snd] in *.
+  split; [exact F|].
+  change (NC (o ++ [reading st s1])). apply NC_app; [exact N|].
+  apply NC_cons; [apply reading_circ_free | apply NC_nil].
+Qed.
+
+Lemma clear_resumes (st : static) : forall s l,
+  let s' := fst (step st s (SetConfig l)) in
+  flag s' = flag s /\ cfg s' = l /\
+  (l_force_open l = false -> l_forced_closed l = false -> is_open s' = flag s) /\
+  any_circ_ev (snd (step st s (SetConfig l))) = [].
+Proof.
+  intros s l. cbn. split; [reflexivity|]. split; [reflexivity|]. split.
+  - intros H1 H2. unfold is_open. cbn. rewrite H1, H2. reflexivity.
+  - unfold reading. destruct (s_mode st); reflexivity.
+Qed.
+
+(* ---------- pass-through ---------- *)
+Lemma find_call_put_same c s : find_call (cs_id c) (put_call c s) = Some c.
+Proof. unfold find_call, put_call. cbn. rewrite Nat.eqb_refl. reflexivity. Qed.
+
+Lemma passthrough_begin (st : static) : forall s id c,
+  passthrough st s -> c_has_run c = true ->
+  let s' := fst (step st s (Begin id c)) in
+  snd (step st s (Begin id c)) = [ORunInvoked id false (c_deadline c); reading st s'] /\
+  cmds s' = cmds s /\ fbs s' = fbs s /\ flag s' = flag s /\ opn s' = opn s /\ cls s' = cls s /\ cfg s' = cfg s /\
+  exists cs, find_call id s' = Some cs /\ cs_phase cs = PPass.
+Proof.
+  intros s id c Hp Hr.
+  set (cs0 := {| cs_id := id; cs_call := c; cs_phase := PPass; cs_done := c_done c |}).
+  assert (E : begin_call st id c s = (put_call cs0 s, [ORunInvoked id false (c_deadline c)])).
+  { unfold begin_call. destruct Hp as [Hm | Hd].
+    - destruct (s_mode st); [congruence | reflexivity | reflexivity].
+    - rewrite Hd. destruct (s_mode st); reflexivity. }
+  unfold step. cbn [step_core]. rewrite E. cbn [fst snd app].
+  repeat (split; [reflexivity|]).
+  exists cs0. split; [|reflexivity]. exact (find_call_put_same cs0 s).
+Qed.
+
+Lemma passthrough_end (st : static) : forall s id e cs,
+  find_call id s = Some cs -> cs_phase cs = PPass ->
+  let s' := fst (step st s (EndRun id e)) in
+  snd (step st s (EndRun id e)) = [ORunEnd id (cs_done cs); OReturned id (res_val (e_res e)) (cs_done cs); reading st s'] /\
+  cmds s' = cmds s /\ fbs s' = fbs s /\ flag s' = flag s /\ opn s' = opn s /\ cls s' = cls s /\ cfg s' = cfg s.
+Proof.
+  intros s id e cs Hf Hp.
+  unfold step. cbn [step_core]. unfold end_run. rewrite Hf, Hp. cbn [fst snd app].
+  repeat split.
 Qed.
